@@ -828,6 +828,28 @@ func (e *Env) call(n ECall) TVal {
 			return r
 		}
 		return e.errf("local needs an identifier")
+	case "captured":
+		// captured(name): the current value of the variable `name` of an enclosing function that the closure being executed
+		// captures (scoped requires in a closure: ties what the closure uses to what the function that built it was given;
+		// a parameter or local of the closure that merely has the same name does not qualify)
+		if !argc(1) {
+			return TVal{}
+		}
+		if id, ok := n.Args[0].(EIdent); ok && e.fr != nil {
+			for i, fv := range e.fr.fn.FreeVars {
+				if fv.Name() != id.Name || i >= len(e.fr.free) {
+					continue
+				}
+				v := e.fr.free[i]
+				if pt, ok := fv.Type().Underlying().(*types.Pointer); ok && v.K == VPtr {
+					lv := e.ex.load(e.st, v.P)
+					return TVal{T: e.ex.toTerm(e.st, lv, pt.Elem()), Ty: pt.Elem()}
+				}
+				return TVal{T: e.ex.toTerm(e.st, v, fv.Type()), Ty: fv.Type()}
+			}
+			return e.errf("captured(%s): %s captures no variable of that name", id.Name, e.fr.fn.Name())
+		}
+		return e.errf("captured needs an identifier")
 	case "param":
 		// param(i): the i-th parameter (receiver not counted) of the calling function, whatever it is named there
 		// (scoped requires: ties what a method does to the roles its interface gives the parameters by position)
@@ -1261,6 +1283,19 @@ func (e *Env) call(n ECall) TVal {
 			b := e.tr(n.Args[1])
 			vc.declareFun("str_int", []string{SStr, SInt}, SInt)
 			return TVal{T: Term{app("str_int", a.T.S, b.T.S), SInt}, Ty: types.Typ[types.Int]}
+		}
+	case "intString":
+		// intString(x): the decimal text big.Int.String renders for the integer x (same symbol the executor uses)
+		if !argc(1) {
+			return TVal{}
+		}
+		{
+			a := e.tr(n.Args[0])
+			if a.T.Sort != SInt {
+				return e.errf("intString of a non-integer")
+			}
+			vc.declareFun("int_str", []string{SInt}, SStr)
+			return TVal{T: Term{app("int_str", a.T.S), SStr}, Ty: types.Typ[types.String]}
 		}
 	case "ratOfString":
 		// ratOfString(s): the rational big.Rat.SetString reads from s (same symbol the executor uses)
